@@ -22,3 +22,10 @@ claimed["C19"] = (
     "identifiers are ASCII without underscores and unique ignoring case (title-casing is delegated to x/text); Go keywords are not identifiers and are not generated as names",
     "DESIGN.md §3 C19",
 )
+claimed["C06"] = (
+    "exploration",
+    "controlled schedule exploration with a stop-the-world quiescence (deadlock) monitor over yield points inserted before every statement of atp/*.go (build overlay)",
+    "The real client and the real RunATPServer run in one process over in-memory transports. A build overlay puts a yield point before every statement of atp/client.go and atp/server.go of the working tree; for each of 10 session histories every reached (point, hit<=3) is paused singly, pairs are sampled. A paused goroutine is held until a goroutine snapshot (runtime.Stack all, world stopped) shows all others blocked, then released - logical time, no sleeps. A snapshot in which every goroutine is blocked on chan/cond/mutex/WaitGroup, nothing is parked and no SDK timer is pending, while an Execute/Close has not returned, is a definite deadlock; goroutines with client frames blocked after Close are leaks. Held on the schedules explored (singles complete per history, pairs sampled).",
+    "trusts runtime.Stack's goroutine states; the SDK's two timer selects are recognised by function name (a run parked there is inconclusive, never a violation); statement-granularity single/pair pauses only",
+    "DESIGN.md §1, §3 C06",
+)
